@@ -241,6 +241,7 @@ impl Sim for NodeSim {
             Tier::Thorough => rng.urange(2, 14),
         };
         let mut steps = vec![];
+        let mut collide = false;
         if ctx.mode == "concurrent" {
             // establish the records first (valid paid uploads), then overlapping updates
             let kind = 1 + rng.below(3) as u8;
@@ -300,9 +301,25 @@ impl Sim for NodeSim {
         } else {
             let mutable_only = prop == "C07";
             let with_restarts = rng.chance(1, 2);
+            collide = rng.chance(1, 4);
+            // colliding runs concentrate on one pair of kinds that share a key: chunk/register 0, or
+            // scratchpad/transaction set of one owner
+            let pair: (u8, u8) = if mutable_only || rng.chance(1, 2) { (1, 2) } else { (0, 3) };
             for _ in 0..n_del {
                 let unpaid_bias = prop != "C03" && rng.chance(1, 2);
-                let d = gen_delivery(rng, prop, mutable_only, unpaid_bias);
+                let mut d = gen_delivery(rng, prop, mutable_only, unpaid_bias);
+                if collide && rng.chance(2, 3) {
+                    d.kind = if rng.chance(1, 2) { pair.0 } else { pair.1 };
+                    d.who = 0;
+                    // as in gen_delivery: foreign transactions only in honest-key presentations
+                    if d.kind == 2 && d.key_mode != 0 {
+                        for it in d.items.iter_mut() {
+                            if it.1 == 2 {
+                                it.1 = 1;
+                            }
+                        }
+                    }
+                }
                 steps.push(Step::Deliver { d });
                 steps.push(Step::Settle);
                 if prop == "C07" && with_restarts && rng.chance(1, 4) {
@@ -316,7 +333,7 @@ impl Sim for NodeSim {
             seed: rng.next_u64(),
             // swarm knob: a sparse routing table (fewer than K peers known) up to more than K
             cache: *rng.pick(&[0usize, 0, 1, 2]),
-            collide: ctx.mode != "concurrent" && ctx.mode != "lagging_writes" && rng.chance(1, 4),
+            collide,
             n_peers: match rng.below(4) { 0 => rng.urange(7, 18), 1 => rng.urange(19, 40), _ => 24 },
             steps,
         }
